@@ -31,11 +31,11 @@ class ConvStackAdapter:
         self.B = Money.new_unit('BBB', 'base', 2)
         self.X = Money.new_unit('XXX', 'other', 2)
         self.convs = {}
-        for name, rate in (('c1', 2), ('c2', 4), ('c3', 5)):
-            c = MoneyConverter(self.B)
-            c.update(None, [(self.X, rate, 1)])
-            self.convs[name] = c
         self.Y = Money.new_unit('YYY', 'third', 2)
+        for name, rate, yrate in (('c1', 2, 3), ('c2', 4, 5), ('c3', 5, 2)):
+            c = MoneyConverter(self.B)
+            c.update(None, [(self.X, rate, 1), (self.Y, yrate, 1)])
+            self.convs[name] = c
         c4 = MoneyConverter(self.B)              # knows a rate, but none for the probed pair
         c4.update(None, [(self.Y, 7, 1)])
         self.convs['c4'] = c4
@@ -46,7 +46,7 @@ class ConvStackAdapter:
         g1, g2 = self.g1, self.g2
 
         def f1(q, u):
-            return q.amount * 2 if (q.unit is g1 and u is g2) else None
+            return q.amount * 2 - 2 if (q.unit is g1 and u is g2) else None
 
         def f2(q, u):
             return None
@@ -120,18 +120,45 @@ class ConvStackAdapter:
             amt = 'raises %s' % type(exc).__name__
         if amt != dst['probe']:
             devs.append(dict(sig='ConvStack:%s:probe' % act, what='1 BBB converts to %s XXX, specification: %s (0 = UnitConversionError)' % (amt, dst['probe'])))
+        # the cross rate (neither currency is the base currency) and a zero amount: both answered by the top converter
+        try:
+            xamt = Fraction(self.Money(1, self.X).convert(self.Y).amount) * 100
+        except UnitConversionError:
+            xamt = 0
+        except Exception as exc:
+            xamt = 'raises %s' % type(exc).__name__
+        if xamt != dst['xprobe']:
+            devs.append(dict(sig='ConvStack:%s:xprobe' % act, what='1 XXX converts to %s/100 YYY, specification: %s/100 (0 = UnitConversionError)' % (xamt, dst['xprobe'])))
+        try:
+            zamt = Fraction(self.Money(0, self.B).convert(self.X).amount)
+            zok = True
+        except UnitConversionError:
+            zok = False
+        except Exception as exc:
+            zok = 'raises %s' % type(exc).__name__
+        if zok != (dst['probe'] != 0) or (zok is True and zamt != 0):
+            devs.append(dict(sig='ConvStack:%s:zero' % act, what='0 BBB -> XXX: %s, specification: %s' % (
+                'converts' if zok is True else zok or 'UnitConversionError', 'zero XXX' if dst['probe'] else 'UnitConversionError')))
         ggot = [self.gname.get(id(f), '?') for f in self.G.registered_converters()]
         gwant = list(dst['gen'])[::-1]
         if ggot != gwant:
             devs.append(dict(sig='ConvStack:%s:genlist' % act, what='generic registered_converters() = %s, specification: %s' % (ggot, gwant)))
         try:
-            gamt = Fraction(self.G(1, self.g1).convert(self.g2).amount)
+            gamt = Fraction(self.G(2, self.g1).convert(self.g2).amount)
         except UnitConversionError:
             gamt = 0
         except Exception as exc:
             gamt = 'raises %s' % type(exc).__name__
         if gamt != dst['gprobe']:
-            devs.append(dict(sig='ConvStack:%s:genprobe' % act, what='1 g1 converts to %s g2, specification: %s' % (gamt, dst['gprobe'])))
+            devs.append(dict(sig='ConvStack:%s:genprobe' % act, what='2 g1 converts to %s g2, specification: %s' % (gamt, dst['gprobe'])))
+        try:
+            gz = Fraction(self.G(1, self.g1).convert(self.g2).amount)
+        except UnitConversionError:
+            gz = -1
+        except Exception as exc:
+            gz = 'raises %s' % type(exc).__name__
+        if gz != dst['gzero']:
+            devs.append(dict(sig='ConvStack:%s:genzero' % act, what='1 g1 converts to %s g2, specification: %s (-1 = UnitConversionError; the most recent converter that answers wins, also with 0)' % (gz, dst['gzero'])))
         return devs
 
 
